@@ -5,7 +5,7 @@
    floats) to "the backends agree with each other", with the composed tolerance, and (2) the
    soundness of the dialect-table checker evaluated on the table extracted from the source. *)
 From Coq Require Import String Bool ZArith QArith Qabs List.
-From Splinkv Require Import Model.Backends Proofs.BackendsP.
+From Splinkv Require Import Base.TV Model.SqlExpr Model.Levels Model.Backends Proofs.BackendsP.
 Import ListNotations.
 Local Open Scope Q_scope.
 
@@ -64,6 +64,21 @@ Theorem C06_distance_under_ge_inverts : forall s t : Q, Qle_bool t (1 - s) = Qle
 Proof. exact distance_under_ge_inverts. Qed.
 Print Assumptions C06_distance_under_ge_inverts.
 
+(* SQL-level cross-dialect obligation: if the conditions two dialects emit for the same level creator are accepted by
+   `same_modulo syn`, they have the same value on every record pair, under every interpretation of the named functions
+   that gives each synonym the meaning of its canonical name *)
+Theorem C06_same_modulo_sound :
+  forall syn e1 e2, same_modulo syn e1 e2 = true ->
+    forall P fenv env, (forall f args, fenv (canon syn f) args = fenv f args) ->
+      eval P fenv env e1 = eval P fenv env e2.
+Proof. exact same_modulo_sound. Qed.
+Print Assumptions C06_same_modulo_sound.
+
+(* the synonym table used by the check is verified against the executable interpretation of C16 *)
+Theorem C06_synonyms_verified : forall f args, std_fenv [] (canon synonyms f) args = std_fenv [] f args.
+Proof. exact std_fenv_respects_synonyms. Qed.
+Print Assumptions C06_synonyms_verified.
+
 (* ---- non-vacuity ---- *)
 Local Open Scope string_scope.
 Example C06_example_close :
@@ -73,6 +88,11 @@ Example C06_example_close :
   same_partition [1; 1; 3; 4; 3]%Z [10; 10; 7; 7; 7]%Z = false.
 Proof. vm_compute. auto. Qed.
 (* the table of the tree before fix f2546301: jaro_winkler registered as a distance, jaro_sim not registered *)
+Example C06_example_same_modulo :
+  let l := fun f => ECmp CGe (EFn f [ECol true "name"; ECol false "name"]) (ELit (VNum (9 # 10))) in
+  same_modulo synonyms (l "jaro_winkler_similarity") (EParen (l "jaro_winkler")) = true /\
+  same_modulo synonyms (l "jaro_winkler_similarity") (l "jaro_sim") = false.
+Proof. vm_compute. auto. Qed.
 Example C06_example_table :
   let good := {| f_role := "jaro_winkler"; f_sqlname := "jaro_winkler"; f_ge := true; f_registered := true; f_kind := Similarity |} in
   let lev := {| f_role := "levenshtein"; f_sqlname := "levenshtein"; f_ge := false; f_registered := true; f_kind := Distance |} in
